@@ -24,6 +24,7 @@ type srcFile struct {
 	St       int    `json:"st"`       // url: status of the answer (0 = 200)
 	Mode     string `json:"mode"`     // url: "" | "drop" | "trunc"
 	Dangling bool   `json:"dangling"` // path: a symbolic link to nothing
+	Ch       int    `json:"ch"`       // chain variant of the certificate in this file (see wFile)
 }
 
 type srcEpoch struct {
@@ -89,7 +90,7 @@ func runSource(raw json.RawMessage) (interface{}, error) {
 			if _, dup := bodies[i][f.Name]; dup {
 				return nil, fmt.Errorf("duplicate file name")
 			}
-			b, err := fileBytes(wFile{f.Name, f.C, f.K})
+			b, err := fileBytes(wFile{f.Name, f.C, f.K, f.Ch})
 			if err != nil {
 				return nil, err
 			}
@@ -225,7 +226,7 @@ func runSource(raw json.RawMessage) (interface{}, error) {
 func toSrcFiles(fs []wFile) []srcFile {
 	out := []srcFile{}
 	for _, f := range fs {
-		out = append(out, srcFile{Name: f.Name, C: f.C, K: f.K})
+		out = append(out, srcFile{Name: f.Name, C: f.C, K: f.K, Ch: f.Ch})
 	}
 	return out
 }
@@ -241,7 +242,7 @@ func linesOf(fs []srcFile) []string {
 func genGoodEpoch(r *hx.Rand, kind string) srcEpoch {
 	fs := genGoodFiles(r, r.Range(1, 3))
 	if r.Chance(1, 8) {
-		fs = append(fs, wFile{"notes.txt", -1, -1})
+		fs = append(fs, wFile{"notes.txt", -1, -1, 0})
 	}
 	shuffleFiles(r, fs)
 	e := srcEpoch{Files: toSrcFiles(fs)}
